@@ -105,6 +105,13 @@ def gen_inputs(ctx):
         for pre in (2, 3):
             out.append(("SecParse", B(bytes([pre]) + x.to_bytes(32, "big")), ("sec-x>=p", pre)))
     out.append(("SecParse", B(b"\x04" + P.to_bytes(32, "big") + (1).to_bytes(32, "big")), ("sec-x>=p-u",)))
+    # public NODES whose key bytes are not a curve point (by constructor, parsed from bytes / from an xpub string,
+    # imported as a wallet): nothing may be produced from them
+    bad = [bytes([pre]) + x.to_bytes(32, "big") for x in nosqrt[:(2 if q else 8)] for pre in (2, 3)] + \
+          [bytes([2]) + P.to_bytes(32, "big"), bytes([3]) + (2 ** 256 - 1).to_bytes(32, "big"), bytes([2]) + bytes(32)]
+    for Kb in bad:
+        for route in ("ctor", "bytes", "str", "import"):
+            out.append(("BadPointNode", {"K": B(Kb), "route": route}, ("node-non-point", route, Kb[1:] >= P.to_bytes(32, "big"))))
     # wrong lengths 0..40 and around 65
     for n in list(range(0, 41)) + [63, 64, 66, 67]:
         if n == 33:
@@ -115,6 +122,8 @@ def gen_inputs(ctx):
 
 
 def describe(ev):
+    if ev["act"] == "BadPointNode":
+        return "public node (%s) with key %s.. that is not a curve point" % (ev["inp"]["route"], bytes(ev["inp"]["K"]).hex()[:18])
     i = ev["inp"]
     if ev["act"] == "PrivCtor":
         return "PrivateKey<%s>(%s)" % (i["form"], bytes(i["v"]).hex()[:40])
